@@ -95,6 +95,11 @@ func (n *simNode) Run(ctx context.Context) {
 		case msg := <-n.messages:
 			n.d.OnReceive(msg)
 		}
+		// The block was accepted (see ProcessBlock), dBFT is idle until it is
+		// reinitialized at the new height with the timestamp of that block.
+		if n.d.BlockSent() {
+			n.d.Reset(n.d.Timestamp)
+		}
 	}
 }
 
